@@ -76,8 +76,21 @@ def run_ops(pname, ops):
                         if r[0] == 'bad':
                             # a result JSON cannot encode: send_result refuses it, and the caller (the session) supplies
                             # an internal error in its place - exactly what RPCSession._throttled_request does
+                            kind_bad = r[1] if len(r) > 1 else 'set'
+                            if kind_bad == 'hugeint':
+                                badval = {'n': [1, 10 ** 4400]}        # json refuses integers of more than 4300 digits
+                            elif kind_bad == 'circular':
+                                badval = []
+                                badval.append(badval)
+                            elif kind_bad == 'deep':
+                                badval = cur = []
+                                for _ in range(100000):
+                                    cur.append([])
+                                    cur = cur[0]
+                            else:
+                                badval = {1, 2}
                             try:
-                                m = received[op[1]].send_result({1, 2})
+                                m = received[op[1]].send_result(badval)
                                 o = {'msg': None if m is None else list(m), 'unencodable_accepted': True}
                             except jsonrpc.ProtocolError:
                                 m = received[op[1]].send_result(jsonrpc.RPCError(jsonrpc.JSONRPC.INTERNAL_ERROR, 'internal server error'))
